@@ -24,7 +24,7 @@ PROP = dict(
          "the prelude implementation must run), every sixth Num (+ - * / on the user type), every fourth Index and "
          "Iterable/Iterator on a user container incl. `bag[i] op= v`; the Num programs use every operator (+ - * / ^) directly, "
          "in generic functions and as compound assignment on a variable, a struct field and an array element, and each operator "
-         "case is also compared with the model's operator table (`monoop`); 21 fixed probes; 4-6 times per program an interface method is used as a first-class VALUE (bound by let, passed to a "
+         "case is also compared with the model's operator table (`monoop`); 21 fixed probes; 16 capture-order probes (a lambda in a generic function using a variable of the type parameter, directly or through a nested lambda, plus 1..8 int variables combined positionally and reassigned after creation; instantiated at void (nil), int and a struct); 4-6 times per program an interface method is used as a first-class VALUE (bound by let, passed to a "
          "higher-order function, element of an array, component of a tuple, and the same inside generic functions) at 2-3 "
          "implementations with seeded method order, the prelude methods ToString.str / Equal.equal / Ord.* / Clone.clone / "
          "Num.* as values at the user type whose Ord implementation lists its methods in another order, and method values at "
